@@ -141,6 +141,35 @@ def known_ids(status="known") -> set:
     return {e["id"] for e in load_known().get("findings", []) if e.get("status") == status}
 
 
+def _failed_operations_prelude(pendulum):
+    """Operations that legitimately raise, executed (and swallowed) right before a case: a failed call must leave nothing behind that changes
+    later results (seeded change C03-r7 kept a class-level flag set when astimezone() raised)."""
+    import datetime as _D
+    attempts = (
+        lambda: pendulum.DateTime.min.in_timezone("America/New_York"),
+        lambda: pendulum.DateTime.max.in_timezone("Asia/Tokyo"),
+        lambda: pendulum.DateTime.min.replace(tzinfo=pendulum.UTC).astimezone(_D.timezone(_D.timedelta(hours=-5))),
+        lambda: pendulum.parse("not a date"),
+        lambda: pendulum.from_format("x", "YYYY-MM-DD"),
+        lambda: pendulum.datetime(2021, 2, 30),
+        lambda: pendulum.datetime(2021, 3, 28, 2, 30, tz="Europe/Paris", raise_on_unknown_times=True),
+        lambda: pendulum.timezone("Nowhere/Land"),
+        lambda: pendulum.duration(years=1.5),
+        lambda: pendulum.date(9999, 12, 31).add(days=1),
+        lambda: pendulum.datetime(9999, 12, 31, 23).add(hours=2),
+        lambda: pendulum.time(1, 2, 3) + _D.timedelta(days=1),
+        lambda: pendulum.datetime(2020, 1, 1).start_of("fortnight"),
+        lambda: pendulum.interval(pendulum.datetime(2020, 1, 1), pendulum.date(2020, 1, 2)),
+        lambda: pendulum.datetime(2020, 1, 1).nth_of("month", 9, pendulum.MONDAY),
+        lambda: pendulum.duration(days=1) / 0,
+    )
+    for f in attempts:
+        try:
+            f()
+        except Exception:  # noqa: BLE001 - each of these is expected to raise; whatever it raises is not this check's business
+            pass
+
+
 @contextlib.contextmanager
 def ambient(case):
     """Run a check under process-wide switches that must NOT influence its result: the stdlib calendar module's first weekday
@@ -162,6 +191,8 @@ def ambient(case):
     old_prec, old_rounding = dctx.prec, dctx.rounding
     dctx.prec = (28, 6, 3, 50)[(k // 49) % 4]
     dctx.rounding = (decimal.ROUND_HALF_EVEN, decimal.ROUND_DOWN, decimal.ROUND_UP)[(k // 196) % 3]
+    if (k // 588) % 2:
+        _failed_operations_prelude(pendulum)
     try:
         yield k % 7, (k // 7) % 7
     finally:
